@@ -61,7 +61,9 @@ type PkgConfig struct {
 	Ffi string
 }
 
-func getFfi(pkg *packages.Package) string {
+// ffiOf determines the FFI a package uses, or reports that its imports reach
+// more than one.
+func ffiOf(pkg *packages.Package) (string, error) {
 	seenFfis := make(map[string]struct{})
 	packages.Visit([]*packages.Package{pkg},
 		func(pkg *packages.Package) bool {
@@ -80,12 +82,20 @@ func getFfi(pkg *packages.Package) string {
 	)
 
 	if len(seenFfis) > 1 {
-		panic(fmt.Sprintf("multiple ffis used %v", seenFfis))
+		return "", fmt.Errorf("multiple ffis used %v", seenFfis)
 	}
 	for ffi := range seenFfis {
-		return ffi
+		return ffi, nil
 	}
-	return "none"
+	return "none", nil
+}
+
+func getFfi(pkg *packages.Package) string {
+	ffi, err := ffiOf(pkg)
+	if err != nil {
+		panic(err.Error())
+	}
+	return ffi
 }
 
 // NewPkgCtx initializes a context based on a properly loaded package
